@@ -8,9 +8,14 @@ class P(vlib.Prop):
             "package of either origin, identical content with different modes/owners, symlinks, hard links, directories with different modes, non-root "
             "owners, files without directory headers, a package shipping the keyring file, FixateWorld order; ALL kind clashes at one path - directory / "
             "empty file / file / link to a directory / link to a file / dangling link, both orders, unrelated / same origin / replaces; symbolic links in "
-            "directory position: lib64 -> lib layouts, chains, '..', loops, dangling, absolute targets on the in-memory backends) followed by random ordered "
+            "directory position: lib64 -> lib layouts, chains, '..', loops, dangling, absolute targets on the in-memory backends; hard links whose TARGET a later "
+            "package re-ships - same origin / replaces in either direction / unrelated / identical / as a link / twice; one package shipping a path twice - other "
+            "bytes, same bytes other mode, three copies, no origin, file<->link, directories twice at and below the top level; and one case per cell of the table "
+            "kind of clash (file/file, file/link, link/link, dir/other) x relation (empty origin, replaces, same origin, unrelated) x content (identical, different): "
+            "the stage fails if a cell is not exercised by the hand-picked cases and prints the table it ran as clash_cells_<backend>) followed by random ordered "
             "lists of 2-5 synthetic signed packages (synthrepo) drawn from a small pool of paths/contents/modes/origins/replaces so that overlaps are "
-            "frequent (a quarter of the cases ship one path with different kinds, a quarter are chains on one path, a sixth reach a directory under two names); "
+            "frequent (a quarter of the cases ship one path with different kinds, a quarter are chains on one path, a sixth reach a directory under two names, an eighth "
+            "have a package that ships a path or a directory header twice); a probe on every backend reads a hard link's name after its package re-shipped the target (finding C07-F17); "
             "each list is installed through apk.New(WithFS)/InitDB/InitKeyring/SetRepositories/SetWorld/ResolveWorld/InstallPackages (explicit order) or "
             "FixateWorld; observed: error class (errors.As FileConflictError / other / none), tree before and after (path, kind, content id, link target, mode, "
             "uid, gid), and lib/apk/db/installed parsed by the harness's own reader. A case is non-trivial when two packages ship the same non-directory "
@@ -23,8 +28,9 @@ class P(vlib.Prop):
     assumptions = (
         "file contents and link targets are compared by number: equal numbers <=> equal bytes (the code compares SHA-1 sums; collisions are outside the model)",
         "the filesystem is a flat map from canonical paths to nodes (no directory is reachable under two names except through symbolic links, which the model resolves as getNode/MkdirAll/openFile do); still declined (reported as a mismatch if generated): hard links to anything but a regular file, on the directory backend hard links whose target name is a link and absolute link targets (they resolve against the host's root)",
-        "one package does not ship the same path twice (sortTarHeaders' map would collapse them); not generated",
-        "xattrs, timestamps, scripts.tar and triggers are not observed",
+        "one package shipping a path twice is modelled (rule table against itself; the writer keeps the last header of a name and writes it once per occurrence, Model/InstallDb.v) "
+        "except for what tarfs then READS: it fetches bytes by name from the package's index (finding C07-F17) - the generator does not re-ship the target of a hard link inside one package, a probe replays it",
+        "xattrs and timestamps: lib/apk/db/installed records neither (no field in the model); what SetXattr/Chtimes do to the tree is not observed; scripts.tar and triggers are not observed",
         "versioned replaces entries (name<ver) are compared as raw strings by both backends and therefore never count as a declaration; the model and the spec read them the same way",
     )
     level_text = ("Theorems about an executable model of both install paths (tarfs.writeHeader; installRegularFile/writeOneFile), the InstallPackages loop with "
@@ -33,7 +39,15 @@ class P(vlib.Prop):
                   "surfaces as the error of the whole install with the state untouched; the owner invariant holds for every package list; the database agrees "
                   "with the tree on the KIND of every recorded entry, on every recorded regular file (mode and content; owner when the header says root) and, on "
                   "the streaming backends, on every recorded symbolic link; a header that survives pruning is written whenever its package ships its directory "
-                  "headers; the full statement, the tarfs symlink entries and the hard-link modes are refuted by witnesses. The model the correspondence runs "
+                  "headers; the full statement, the tarfs symlink entries and the hard-link modes are refuted by witnesses. A PROVENANCE invariant (every non-directory "
+                  "node is untouched or was written by a listed header of that path: bytes, mode, owner, who installedFiles names) is preserved by every step and gives "
+                  "c07_db_records_true: inside the envelope (one kind per path, no path twice in a package, nothing shipped was there before) EVERY record of the database is "
+                  "true - regular files: bytes, mode, last writer, recorded once; links: a listed link header's target (this record's on the streaming backends, or when the "
+                  "packages agree); hard links: a regular file with some package's bytes. Hard links are also modelled as names over a node heap: no step changes a node in "
+                  "place, only the header's own name is re-bound (every other name keeps its content: c07_hardlink_names_keep_content, with the switch goextract reads off "
+                  "writeHeader/link), and the flat model is exactly the reader's view of it. One package shipping a path twice: the later copy wins unless the bytes are the "
+                  "same, the writer records the last header per name once per occurrence (equal to f_db when no path repeats; refuted as truthful otherwise, C07-F16). "
+                  "The model the correspondence runs "
                   "(install_l) additionally resolves paths through symbolic links and is proved to answer as the model of the theorems wherever that one answers. "
                   "The model is tied to the code by differential comparison of error class, final tree and parsed database text on all three backends, and the "
                   "verified validators (rule table over kinds, every recorded entry, recorded exactly once) run on what the real code produced.")
@@ -43,6 +57,7 @@ class P(vlib.Prop):
     design_ref = "DESIGN.md 7 C07"
     modelled_not_verified = ("tarfs.WriteHeader/writeHeader/link, installAPKFiles/installRegularFile/writeOneFile, InstallPackages (sequential installer, pruning), "
                              "AddInstalledPackage/sortTarHeaders (which headers are written; the text format itself is C16's subject) are modelled by hand in "
-                             "Model/Install.v; path resolution through symbolic links (getNode, MkdirAll, openFile chain, Readlink/Symlink/Link/Remove at the resolved parent) is modelled in the same file on canonical paths")
+                             "Model/Install.v; path resolution through symbolic links (getNode, MkdirAll, openFile chain, Readlink/Symlink/Link/Remove at the resolved parent) is modelled in the same file on canonical paths; "
+                             "hard links as names over a node heap in Model/InstallInode.v (proved equal to the flat model; not compared separately); sortTarHeaders with repeated names in Model/InstallDb.v (compared)")
 
 PROP = P()
